@@ -210,6 +210,9 @@ func (ps *peerScore) SetTopicScoreParams(topic string, p *TopicScoreParams) erro
 	defer ps.Unlock()
 
 	old, exist := ps.params.Topics[topic]
+	if ps.params.Topics == nil {
+		ps.params.Topics = make(map[string]*TopicScoreParams)
+	}
 	ps.params.Topics[topic] = p
 
 	if !exist {
